@@ -297,6 +297,8 @@ class Fn:
 
     def loc(self, bb=None):
         if bb is None:
+            if self.raw["span"].startswith("/") and self.raw.get("parent") in self.facts.F:
+                return self.facts.F[self.raw["parent"]].loc()
             return ":".join(self.raw["span"].split(":")[:2])
         return "%s:%d" % (self.file(), self.blocks[bb]["term"]["line"])
 
